@@ -198,7 +198,7 @@ def call_pyfunc(I, f, args, kwargs, bound_self=None, have_self=False, cls=None):
         # contract on a bellows function: the caller is checked against it (modular)
         if reg is not None and source.is_repo_module(mod):
             con = reg.contract_for_call(qn, I)
-            if con is not None:
+            if con is not None and not inspect.iscoroutinefunction(f):
                 return reg.apply_contract(I, con, f, args, kwargs, bound_self if have_self else None)
         try:
             node, modname, _h = source.find_function(qn)
